@@ -86,6 +86,27 @@ CHECKS = {
               "partition specs describe one tree. Failures are bucketed per root cause (innermost repository frame). No absence proof."),
         note="Trusted: the exception policy stated in evidence.assumptions (what counts as an explicit rejection); jax.eval_shape executes the same Python as a real trace. Domain restrictions (documented in DESIGN.md): LOBPCG only with max statistic size > 5k, sharded mode with a non-empty tree and block_size > 0.",
         design="DESIGN.md section 3, C07"),
+    "C03": dict(
+        category="fault_enumeration",
+        technique="fault injection by generated schedules (Hypothesis) plus exhaustive enumeration of all schedules over 5 principal fault tags, with the acceptance-gate invariant evaluated bitwise after every update in replicated / quantised-pmap / sharded modes",
+        text=("Per compiled configuration (mode, root routine, failure threshold incl. 0, matrix epsilon incl. 0, intervals, graft, x64 on/off) "
+              "several fault schedules of up to 8 steps inject NaN / Inf / zero / huge / tiny / rank-1 / constant gradients at arbitrary step "
+              "subsets; all 5^3 (thorough 5^4) schedules over the principal tags are enumerated per mode. After every update each stored "
+              "preconditioner (all QuantizedValue components, every slice of the sharded array incl. padding) must be bit-identical to before "
+              "or replaced on a refresh step with a finite error strictly below the threshold; all must be finite; updates must be finite for "
+              "moderate gradients. ~400 configurations / 1e4 steps quick."),
+        note="Trusted: the error figure read from training_metrics of the state returned by the same update. Padding slices of the sharded array are checked for finiteness only.",
+        design="DESIGN.md section 3, C03"),
+    "C04": dict(
+        category="exploration",
+        technique="exhaustive grid enumeration of (statistics interval, preconditioner interval, start step) plus Hypothesis-drawn scheduled intervals, checked step by step against an explicit schedule automaton by bitwise state comparison and twin-run differential oracles",
+        text=("Complete (s, p, start) grid {1..4}^2 x {0..6} for replicated Distributed Shampoo, sub-grids for the sharded variant, Tearfree "
+              "Shampoo and Sketchy, and learning-rate-scheduled preconditioner intervals over 45 steps: statistics/preconditioner/metric "
+              "leaves bit-identical on non-refresh steps, changed on scheduled statistics steps, count +1 per update, refresh reflects current "
+              "statistics (interval-1 twin), warm-up equals the graft-only twin before the start step and the start-0 twin from it on, "
+              "closed-form Nesterov momentum SGD before the start step."),
+        note="Trusted: the docstring formula for the scheduled interval; twin comparisons at rtol 1e-5 (differently compiled programs).",
+        design="DESIGN.md section 3, C04"),
 }
 
 NOT_YET = {}
